@@ -41,6 +41,7 @@ package keeper
 //@ ghost pit.rank (Array Bytes Int)
 //@ ghost pit.pw (Array Iface (Array Int Int))
 //@ ghost nls.at (Array Bytes Int)
+//@ ghost pit.mpos (Array Iface (Array Int Int))
 //@ ghost uq.slot (Array Iface (Array Int Int))
 //@ ghost uq.posin (Array Iface (Array Bytes Int))
 //@ ghost pos.proposerset Bool
@@ -133,9 +134,16 @@ package keeper
 //@   mode value
 //@   modifies pos.missed[address]
 //@   ensures pos.missed[address] == upd(old(pos.missed[address]), index, missed)
-//@ assumed func (k Keeper) clearMissedArray(ctx sdk.Ctx, address sdk.Address)
-//@   mode value
-//@   modifies pos.missed[address]
+// C08: jailing for downtime clears the whole ring of the validator (iterate the per-address prefix, delete every entry)
+//@ func (k Keeper) clearMissedArray(ctx sdk.Ctx, address sdk.Address)
+//@   props C08
+//@   modifies pos.missed[address], pit.pos, pit.len, pit.key, pit.val, pit.at, pit.sum, pit.mpos
+//@   loop 1 frame
+//@   loop 1 decreases pit.len[iter] - pit.pos[iter]
+//@   loop 1 invariant 0 <= pit.pos[iter] && pit.pos[iter] <= pit.len[iter]
+//@   loop 1 invariant forall x int :: pos.missed[address][x] == (old(pos.missed)[address][x] && pit.mpos[iter][x] >= pit.pos[iter])
+//@   loop 1 invariant forall a Bytes :: a != address ==> pos.missed[a] == old(pos.missed)[a]
+//@   loop 1 invariant pos.vals == old(pos.vals) && pos.has == old(pos.has) && pos.idx == old(pos.idx) && pos.queue == old(pos.queue) && pos.sinfo == old(pos.sinfo) && pos.sinfohas == old(pos.sinfohas) && pos.awards == old(pos.awards) && pos.awardq == old(pos.awardq) && pos.awardsum == old(pos.awardsum) && pos.burns == old(pos.burns) && pos.burnq == old(pos.burnq) && pos.stakesum == old(pos.stakesum) && pos.proposer == old(pos.proposer) && pos.proposerset == old(pos.proposerset) && pos.prev == old(pos.prev) && pos.prevhas == old(pos.prevhas) && pos.prevtotal == old(pos.prevtotal)
 //@   ensures forall i int :: !pos.missed[address][i]
 //@ assumed func (k Keeper) getValidatorAward(ctx sdk.Ctx, address sdk.Address) (coins sdk.Int, found bool)
 //@   mode value
@@ -445,7 +453,7 @@ package keeper
 //@   requires amt(auth.bal[modaddr("staked_tokens_pool")], pp_denom) >= pos.stakesum     // C04
 //@   requires forall a Bytes :: pos.burnq[a] ==> pos.has[a] && a != nil && pos.burns[a] <= pow10(18)
 //@   modifies acct.id, acct.next, acct.coins, acct.addr, auth.bal[modaddr("staked_tokens_pool")], auth.has[modaddr("staked_tokens_pool")], auth.supply
-//@   modifies pos.vals, pos.has, pos.idx, pos.stakesum, pos.queue, pos.burns, pos.burnq, pit.pos, pit.len, pit.key, pit.val, pit.at, pit.sum
+//@   modifies pos.vals, pos.has, pos.idx, pos.stakesum, pos.queue, pos.burns, pos.burnq, pit.pos, pit.len, pit.key, pit.val, pit.at, pit.sum, pit.mpos
 //@   loop 1 frame
 //@   loop 1 decreases pit.len[iterator] - pit.pos[iterator]
 //@   loop 1 invariant 0 <= pit.pos[iterator] && pit.pos[iterator] <= pit.len[iterator]
@@ -497,6 +505,7 @@ package keeper
 //@   modifies acct.id, acct.next, acct.coins, acct.addr, auth.bal[modaddr("staked_tokens_pool")], auth.has[modaddr("staked_tokens_pool")], auth.supply
 //@   requires modreg("staked_tokens_pool") && modperm("staked_tokens_pool", "burner") && amt(auth.bal[modaddr("staked_tokens_pool")], pp_denom) >= pos.stakesum   // C04: the pool backs the stake
 //@   modifies pos.vals[addr], pos.has[addr], pos.idx[addr], pos.stakesum, pos.sinfo[addr], pos.sinfohas[addr], pos.missed[addr], pos.queue[pos.vals[addr].UnstakingCompletionTime]
+//@   modifies pit.pos, pit.len, pit.key, pit.val, pit.at, pit.sum, pit.mpos     // clearMissedArray walks the ring with an iterator
 //@   ensures [bounds] old(pos.sinfohas[addr]) && pos.sinfohas[addr] && 0 <= pos.sinfo[addr].IndexOffset && pos.sinfo[addr].IndexOffset <= old(pos.sinfo[addr].IndexOffset) + 1 && pos.sinfo[addr].StartHeight == old(pos.sinfo[addr].StartHeight)
 //@   ensures [backed] amt(auth.bal[modaddr("staked_tokens_pool")], pp_denom) - pos.stakesum == old(amt(auth.bal[modaddr("staked_tokens_pool")], pp_denom) - pos.stakesum)
 //@   ensures [supply] amt(auth.supply, pp_denom) - amt(auth.bal[modaddr("staked_tokens_pool")], pp_denom) == old(amt(auth.supply, pp_denom) - amt(auth.bal[modaddr("staked_tokens_pool")], pp_denom))
@@ -541,7 +550,7 @@ package keeper
 //@   uses bankinv awardinv
 //@   requires modreg("staked_tokens_pool") && modperm("staked_tokens_pool", "minter")
 //@   requires forall a Bytes :: pos.awardq[a] ==> a != modaddr("staked_tokens_pool") && pos.awards[a] >= 0
-//@   modifies acct.id, acct.next, acct.coins, acct.addr, auth.bal, auth.has, auth.supply, pos.awards, pos.awardq, pos.awardsum, pit.pos, pit.len, pit.key, pit.val, pit.at, pit.sum
+//@   modifies acct.id, acct.next, acct.coins, acct.addr, auth.bal, auth.has, auth.supply, pos.awards, pos.awardq, pos.awardsum, pit.pos, pit.len, pit.key, pit.val, pit.at, pit.sum, pit.mpos
 //@   loop 1 frame
 //@   loop 1 decreases pit.len[iterator] - pit.pos[iterator]
 //@   loop 1 invariant 0 <= pit.pos[iterator] && pit.pos[iterator] <= pit.len[iterator]
